@@ -719,6 +719,11 @@ def interval(ex, body, depth=0):
         return X.INT_RANGES.get(ty, INF)
     if k == "field" and len(ex) > 3:
         return X.INT_RANGES.get(ex[3], INF)
+    if k == "index" and len(ex) > 3:
+        return X.INT_RANGES.get(ex[3], INF)
+    if k == "mut":
+        inner = ex[1]
+        return INF
     return INF
 
 
